@@ -161,4 +161,71 @@ theorem blosum_nonneg (m : Mode) (maxid : ℚ) (rows : List Row) : ∀ w ∈ blo
     simp only [ofNat_rat]
     positivity
 
+/-! ### identical rows -/
+
+theorem length_one_of_all_eq {l : List Nat} {a : Nat} (hnd : l.Nodup) (hne : l ≠ []) (hall : ∀ w ∈ l, w = a) : l.length = 1 := by
+  match l, hnd, hne, hall with
+  | [x], _, _, _ => rfl
+  | x :: y :: t, hnd, _, hall =>
+    have hx := hall x (by simp)
+    have hy := hall y (by simp)
+    have : x ≠ y := by
+      have := (List.nodup_cons.mp hnd).1
+      intro e; apply this; simp [e]
+    exact absurd (hx.trans hy.symm) this
+
+theorem reach_eq_of_no_link {link : Nat → Nat → Bool} {n i w : Nat} (hno : ∀ k, k < n → link i k = false)
+    (h : Reach link n i w) : w = i := by
+  induction h with
+  | refl => rfl
+  | step _ _ hz hl ih => subst ih; rw [hno _ hz] at hl; exact absurd hl (by simp)
+
+/-- rows with the same content sit in clusters of the same size -/
+theorem cluster_size_eq_of_rows_eq (m : Mode) (maxid : ℚ) (rows : List Row) (i j : Nat) (hi : i < rows.length)
+    (hj : j < rows.length) (h : rows[i] = rows[j]) :
+    ((msaSingleLinkage m maxid rows).getD (clusterIndex (msaSingleLinkage m maxid rows) i) []).length =
+    ((msaSingleLinkage m maxid rows).getD (clusterIndex (msaSingleLinkage m maxid rows) j) []).length := by
+  let link : Nat → Nat → Bool := fun v w => linked m maxid (rows.getD v []) (rows.getD w [])
+  have hsym : ∀ x y, link x y = link y x := fun x y => linked_comm m maxid _ _
+  have hrow : rows.getD i [] = rows.getD j [] := by
+    rw [List.getD_eq_getElem?_getD, List.getD_eq_getElem?_getD, List.getElem?_eq_getElem hi, List.getElem?_eq_getElem hj, h]
+  have hlink : ∀ k, link i k = link j k := fun k => by show linked _ _ _ _ = linked _ _ _ _; rw [hrow]
+  have inv := singleLinkage_inv hsym rows.length
+  have hp : IsPartition (singleLinkage link rows.length) rows.length := singleLinkage_isPartition hsym rows.length
+  show ((singleLinkage link rows.length).getD (clusterIndex (singleLinkage link rows.length) i) []).length =
+       ((singleLinkage link rows.length).getD (clusterIndex (singleLinkage link rows.length) j) []).length
+  by_cases hex : ∃ k, k < rows.length ∧ link i k = true
+  · obtain ⟨k, hk, hl⟩ := hex
+    have hr : Reach link rows.length i j :=
+      (Reach.single hi hk hl).trans (Reach.single hk hj (by rw [hsym, ← hlink]; exact hl))
+    rw [(assignment_eq_iff hsym rows.length i j hi hj).mpr hr]
+  · have hno : ∀ k, k < rows.length → link i k = false := by
+      intro k hk
+      by_contra hc
+      exact hex ⟨k, hk, by simpa using hc⟩
+    have hno' : ∀ k, k < rows.length → link j k = false := fun k hk => by rw [← hlink]; exact hno k hk
+    have one : ∀ u, u < rows.length → (∀ k, k < rows.length → link u k = false) →
+        ((singleLinkage link rows.length).getD (clusterIndex (singleLinkage link rows.length) u) []).length = 1 := by
+      intro u hu hnou
+      have hk := hp.index_lt hu
+      rw [List.getD_eq_getElem?_getD, List.getElem?_eq_getElem hk]
+      simp only [Option.getD_some]
+      have hmem := List.getElem_mem hk
+      apply length_one_of_all_eq ((List.nodup_flatten.mp hp.nodup).1 _ hmem) (hp.ne _ hmem)
+      intro w hw
+      have hwn : w < rows.length := hp.mem_flatten.mp (List.mem_flatten.mpr ⟨_, hmem, hw⟩)
+      exact reach_eq_of_no_link hnou ((inv.comp _ hmem u (hp.mem_own hu) w hwn).mp hw)
+    rw [one i hi hno, one j hj hno']
+
+/-- BLOSUM: identical rows get identical weights -/
+theorem blosum_eq_of_rows_eq (m : Mode) (maxid : ℚ) (rows : List Row) (i j : Nat) (hi : i < rows.length)
+    (hj : j < rows.length) (h : rows[i] = rows[j])
+    (hi' : i < (blosum m maxid rows).length) (hj' : j < (blosum m maxid rows).length) :
+    (blosum m maxid rows)[i] = (blosum m maxid rows)[j] := by
+  by_cases hn : rows.length = 1
+  · have : i = j := by omega
+    subst this; rfl
+  · rw [blosum_getElem m maxid rows hn i hi, blosum_getElem m maxid rows hn j hj,
+      cluster_size_eq_of_rows_eq m maxid rows i j hi hj h]
+
 end EaselModel.Weights
